@@ -943,7 +943,7 @@ PROPS['C11'].update(
 MANIFEST_TEXT['C11'] = dict(level_text='Narrow: how one directory entry is classified against the recorded state (and therefore re-read or trusted) and when diff reports a difference are per-call statements and are decided for all inputs; the directory walk, removal detection, links and the agreement of list / check with the real tree are not - level other.',
                             design_ref='DESIGN.md section 4', level_note='callees and index structures by stub; scan_dir / scan_disk not covered', technique='CBMC drivers on the mechanically extracted body of scan_file and regions of state_diffscan / main; bounded unit on real cmdline/parity.c')
 PROPS['C12'].update(
-    explanation='Only the per-call parts of the statement, each on the real code: (1) the command dispatch of main() (extracted with its OPERATION_* definitions, every state_* callee a recording stub that may leave the state marked as changed): status, diff, list, dup, check, dry and the device commands start nothing that writes data, parity or content (no state_sync / state_scrub / state_touch / state_rehash / state_pool / state_write, and state_check only with fix = 0); scrub may only scrub and save the content file; sync only sync and save; fix runs state_check with fix = 1 and never saves the content file; pool only state_pool; touch only state_touch and save; an audit-only check starts no import / search. (2) state_check: without the fix flag the parity is only ever opened with parity_open - never created, resized or truncated - and not at all with -a; the fix flag reaches state_check_process unchanged. (3) handle_open (how sync, scrub, check and dry open DATA files) and parity_open (how check, scrub and dry open PARITY): every open() issued has access mode O_RDONLY and neither O_CREAT, O_TRUNC nor O_APPEND, through the real open_noatime and advise_flags.',
+    explanation='Only the per-call parts of the statement, each on the real code: (1) the command dispatch of main() (extracted with its OPERATION_* definitions, every state_* callee a recording stub that may leave the state marked as changed): status, diff, list, dup, check, dry and the device commands start nothing that writes data, parity or content (no state_sync / state_scrub / state_touch / state_rehash / state_pool / state_write, and state_check only with fix = 0); scrub may only scrub and save the content file; sync only sync and save; fix runs state_check with fix = 1 and never saves the content file; pool only state_pool; touch only state_touch and save; an audit-only check starts no import / search. (2) state_check: without the fix flag the parity is only ever opened with parity_open - never created, resized or truncated - and not at all with -a; the fix flag reaches state_check_process unchanged. (3) the write-back region of state_check_process and file_post: without the fix flag no data block, parity block, rename or time-stamp is issued; with it only for bad blocks of selected files (see C05). (4) handle_open (how sync, scrub, check and dry open DATA files) and parity_open (how check, scrub and dry open PARITY): every open() issued has access mode O_RDONLY and neither O_CREAT, O_TRUNC nor O_APPEND, through the real open_noatime and advise_flags.',
     trusted_base=['region extraction of main() and state_check; open_noatime (unix.c) and advise_flags (support.c) extracted', 'open / fstat / close / advise_open and every state_* callee by stub'],
     assumptions=['that the processing loops (state_sync_process, state_scrub_process, state_check_process without fix, state_status, state_list, state_dup, state_diffscan) issue no other mutating system call than through the functions above is NOT under an obligation - it is a statement over every call site of those loops (a syntactic fact: scrub.c, sync.c, dry.c reference no handle_create / handle_write / handle_truncate / unlink / rename; check.c only under `if (fix)`), not a contract', 'what fix may write (only what it reports as fixed), pool, touch, the log and lock files are NOT under an obligation'],
     not_covered=['state_check_process (fix write-back guards)', 'state_pool, state_touch', 'log / lock file creation', 'the frame "nothing else changed" over the file system'])
